@@ -735,6 +735,8 @@ def install_monitors(ctx) -> None:
                 checker(before, _model_lists(*out), rest)
             except Exception as err:  # pylint: disable=broad-except
                 ctx.count("monitor-error:" + type(err).__name__)
+                ctx.violate("monitor-cannot-read-the-competition-result",
+                            {"fn": name, "exception": type(err).__name__, "message": str(err)[:200]}, None)
             return out
         ctx.counters[f"sites:{name}"] = instrument.rebind(original, wrapper)
 
